@@ -1081,7 +1081,8 @@ class Messenger(Connection):
         :type ext_items: array
         '''
         self._logger.debug('XFER_DATA %d %s', transfer_id, flags)
-        if not self._in_sess:
+        if not self._in_sess or not self._sess_parameters:
+            # No (successfully negotiated) session to carry transfers
             raise RejectError(messages.RejectMsg.Reason.UNEXPECTED)
 
     def recv_xfer_ack(self, transfer_id, flags, length):
@@ -1095,7 +1096,8 @@ class Messenger(Connection):
         :type length: int
         '''
         self._logger.debug('XFER_ACK %d %s %s', transfer_id, flags, length)
-        if not self._in_sess:
+        if not self._in_sess or not self._sess_parameters:
+            # No (successfully negotiated) session to carry transfers
             raise RejectError(messages.RejectMsg.Reason.UNEXPECTED)
 
     def recv_xfer_refuse(self, transfer_id, reason):
@@ -1107,7 +1109,8 @@ class Messenger(Connection):
         :type reason: int
         '''
         self._logger.debug('XFER_REFUSE %d %s', transfer_id, reason)
-        if not self._in_sess:
+        if not self._in_sess or not self._sess_parameters:
+            # No (successfully negotiated) session to carry transfers
             raise RejectError(messages.RejectMsg.Reason.UNEXPECTED)
 
     def send_xfer_data(self, transfer_id, data, flg, ext_items=None):
